@@ -17,6 +17,7 @@ DNS = 'cryptoparser.dnsrec.record:'
 CDH = 'cryptodatahub.'
 
 MAX_EPOCH_S = (1 << 32) - 2
+MAX_SCT_MS = 253402300799999          # 9999-12-31T23:59:59.999Z, the last instant datetime can hold
 
 
 # ---------------------------------------------------------------------------------------------------
@@ -124,7 +125,9 @@ def first_member(ref):
 
 
 def datetime_ms(lo_ms=0, hi_ms=MAX_EPOCH_S * 1000, tz='utc', step=1):
-    boundary = [lo_ms, lo_ms + step, hi_ms - (hi_ms % step), 1000 * 0x7fffffff, 1000 * 0x80000000, 1340000000000]
+    boundary = [lo_ms, lo_ms + step, hi_ms - (hi_ms % step), 1000 * 0x7fffffff, 1000 * 0x80000000, 1340000000000,
+                # past the 32-bit second counter (where a float of milliseconds stops being exact)
+                1000 * (1 << 32) + 1, 1000 * (1 << 33) + 1, 1000 * (1 << 33) + 999, 1000 * (1 << 35) + 7, 1000 * (1 << 37) + 501]
     boundary = [b - (b % step) for b in boundary if lo_ms <= b <= hi_ms]
     return st.one_of(st.sampled_from(boundary), st.integers(lo_ms // step, hi_ms // step).map(lambda v: v * step)).map(
         lambda ms: {'dt': ms, 'tz': tz})
@@ -379,7 +382,8 @@ def _ct_log_ids():
 def _sct():
     return obj(X509 + 'SignedCertificateTimestamp',
                version=enum_(X509 + 'CtVersion'), log=_ct_log_ids(),
-               timestamp=datetime_ms(0, MAX_EPOCH_S * 1000, 'dateutil'),
+               timestamp=st.one_of(datetime_ms(0, MAX_EPOCH_S * 1000, 'dateutil'),
+                                   datetime_ms(0, MAX_SCT_MS, 'dateutil')),      # 64-bit milliseconds: up to year 9999
                extensions=obj(X509 + 'CtExtensions', st.just([])),
                signature_algorithm=enum_(ALG + 'TlsSignatureAndHashAlgorithm'),
                signature=byte_list(0, 600))
